@@ -153,6 +153,14 @@ class BaseMCMCRunner(ABC):
             for k in range(self.n_walkers):
                 u_prime[k] = self._propose(k)
 
+            # Proposals that leave the unit cube have zero prior density and are
+            # rejected. (Redrawing them until they land inside would tilt the
+            # invariant distribution by the probability of landing inside.)
+            inside = np.array(
+                [check_bounds(u_p, self.periodic, self.reflective) for u_p in u_prime]
+            )
+            u_prime[~inside] = self.u[~inside]
+
             # Transform to x space
             x_prime = np.array([self.prior_transform(u_p) for u_p in u_prime])
 
@@ -164,6 +172,7 @@ class BaseMCMCRunner(ABC):
             alpha = np.exp(self.beta * (logl_prime - self.logl) + alpha)
             alpha = np.minimum(1.0, alpha)
             alpha = np.nan_to_num(alpha, nan=0.0)
+            alpha[~inside] = 0.0
 
             # Metropolis criterion
             u_rand = np.random.rand(self.n_walkers)
@@ -235,18 +244,13 @@ class TPCNRunner(BaseMCMCRunner):
         gamma_scale = 2.0 / (self.degrees_of_freedom[self.assignments[k]] + dot_product)
         s = 1.0 / np.random.gamma(shape=gamma_shape, scale=gamma_scale)
 
-        # Generate proposal with boundary checking
-        while True:
-            proposal = (
-                mu
-                + np.sqrt(1.0 - sigma**2.0) * diff
-                + sigma * np.sqrt(s) * chol_cov @ np.random.randn(self.n_dim)
-            )
-            proposal = apply_boundary_conditions(
-                proposal, self.periodic, self.reflective
-            )
-            if check_bounds(proposal, self.periodic, self.reflective):
-                return proposal
+        # Generate proposal (out-of-cube proposals are rejected in run())
+        proposal = (
+            mu
+            + np.sqrt(1.0 - sigma**2.0) * diff
+            + sigma * np.sqrt(s) * chol_cov @ np.random.randn(self.n_dim)
+        )
+        return apply_boundary_conditions(proposal, self.periodic, self.reflective)
 
     def _compute_acceptance_factor(
         self, u_prime: np.ndarray, logl_prime: np.ndarray
@@ -303,13 +307,8 @@ class RWMRunner(BaseMCMCRunner):
         chol_cov = self.chol_covs[self.assignments[k]]
         sigma = self.sigmas[self.assignments[k]]
 
-        while True:
-            proposal = self.u[k] + sigma * chol_cov @ np.random.randn(self.n_dim)
-            proposal = apply_boundary_conditions(
-                proposal, self.periodic, self.reflective
-            )
-            if check_bounds(proposal, self.periodic, self.reflective):
-                return proposal
+        proposal = self.u[k] + sigma * chol_cov @ np.random.randn(self.n_dim)
+        return apply_boundary_conditions(proposal, self.periodic, self.reflective)
 
     def _compute_acceptance_factor(
         self, u_prime: np.ndarray, logl_prime: np.ndarray
